@@ -144,12 +144,10 @@ theorem denied_no_effect (c : Config) (o : Obj) (nm : Name) (r : Req) (e : Err)
   | setattr => exact key .set hh h
   | delattr => exact key .del hh h
   | callattr =>
-    simp only [handle, thenCall] at h ⊢
-    cases hr : (run c o nm .get).out with
-    | ok a => simp [hr] at h
-    | error e' =>
-      simp only [hr] at h ⊢
-      exact key .get hh (by rw [hr, ← h])
+    simp only [handle] at h ⊢
+    obtain ⟨hr, hl⟩ := thenCall_error o _ e h
+    rw [hl]
+    exact key .get hh hr
 
 /-- conversely an allowed request reaches exactly one attribute, after the probes: the one `_check_attr` named -/
 theorem allowed_effect_exact (c : Config) (o : Obj) (name : PyStr) (op : Op) (n : PyStr)
@@ -336,24 +334,28 @@ theorem name_error_independent (c c' : Config) (o o' : Obj) (nm : Name) (op op' 
 
 /-- every `_access_attr` call site in `Connection` passes a matching (hook, permission, accessor) triple, on the
 object itself (only `_handle_cmp` passes `type(obj)`), and the handlers that fetch by name delegate to
-`_handle_getattr` (AST of the live source; a re-wired permission key breaks this) -/
+`_handle_getattr` (AST of the live source, variable names not recorded; a re-wired permission key breaks this) -/
 theorem call_sites_are_modelled :
     Gen.Policy.accessSites =
-      [("_handle_cmp", "type(obj)", "op", "_rpyc_getattr", "allow_getattr", "getattr"),
-       ("_handle_delattr", "obj", "name", "_rpyc_delattr", "allow_delattr", "delattr"),
-       ("_handle_getattr", "obj", "name", "_rpyc_getattr", "allow_getattr", "getattr"),
-       ("_handle_setattr", "obj", "name", "_rpyc_setattr", "allow_setattr", "setattr")]
+      [("_handle_cmp", true, "_rpyc_getattr", "allow_getattr", "getattr"),
+       ("_handle_delattr", false, "_rpyc_delattr", "allow_delattr", "delattr"),
+       ("_handle_getattr", false, "_rpyc_getattr", "allow_getattr", "getattr"),
+       ("_handle_setattr", false, "_rpyc_setattr", "allow_setattr", "setattr")]
     ∧ Gen.Policy.getattrDelegates = ["_handle_callattr", "_handle_ctxexit", "_handle_oldslicing"] := by
   decide
 
-/-- `_check_attr` reads exactly the six modelled keys plus `config[perm]`; `__init__` copies the defaults and
-updates the copy; `SlaveService.on_connect` was observed to leave `DEFAULT_CONFIG` deep-equal; hooks as modelled -/
-theorem config_reads_are_modelled :
+/-- observed on the live code at generation time: `_check_attr` reads exactly the nine modelled keys;
+`Connection.__init__` gives each connection its own dict = defaults overlaid with the caller's dict and modifies
+neither `DEFAULT_CONFIG` nor the caller's dict (this is `step (.open i ov)`); `SlaveService.on_connect` leaves
+`DEFAULT_CONFIG` deep-equal; `Service` has no read hook; the generated safe list is complete -/
+theorem config_handling_is_modelled :
     Gen.Policy.checkAttrReads =
-      ["allow_all_attrs", "allow_exposed_attrs", "allow_public_attrs", "allow_safe_attrs", "exposed_prefix", "safe_attrs"]
-    ∧ Gen.Policy.checkAttrReadsPerm = true
-    ∧ Gen.Policy.initConfigAssigned = "DEFAULT_CONFIG.copy()"
-    ∧ Gen.Policy.initConfigUpdatedWithArg = true
+      ["allow_all_attrs", "allow_delattr", "allow_exposed_attrs", "allow_getattr", "allow_public_attrs",
+       "allow_safe_attrs", "allow_setattr", "exposed_prefix", "safe_attrs"]
+    ∧ Gen.Policy.initOwnCopy = true
+    ∧ Gen.Policy.initEqualsDefaults = true
+    ∧ Gen.Policy.initOverlaysArg = true
+    ∧ Gen.Policy.initLeavesInputsAlone = true
     ∧ Gen.Policy.slaveLeavesDefaultsAlone = true
     ∧ Gen.Policy.serviceHasGetHook = false
     ∧ Gen.Policy.cfgSafeAttrsCp.length = Gen.Policy.cfgSafeAttrsCount := by
